@@ -369,6 +369,22 @@ def h_chunks(ctx, lines):
     orig_open = getattr(parallel, "open", None)
     parallel.open = lambda fname, *a, **k: _F(text)
     names = []
+    made = []
+    real_mkstemp = parallel.tempfile.mkstemp
+
+    def mkstemp(*a, **k):  # to_chunks removes its files at interpreter exit, which a worker never reaches
+        fd, nm_ = real_mkstemp(*a, **k)
+        made.append(nm_)
+        return fd, nm_
+
+    class _Tempfile:
+        def __getattr__(self, name):
+            return getattr(real_tempfile, name)
+
+    real_tempfile = parallel.tempfile
+    tf = _Tempfile()
+    tf.mkstemp = mkstemp
+    parallel.tempfile = tf
     try:
         for nm in parallel.to_chunks("regions.bed", cs):
             with open(nm) as fh:
@@ -378,6 +394,9 @@ def h_chunks(ctx, lines):
         claim_raised(ctx, "to_chunks", exc)
         return
     finally:
+        parallel.tempfile = real_tempfile
+        for nm_ in made:
+            parallel.rm(nm_)
         if orig_open is None:
             del parallel.open
         else:
